@@ -23,12 +23,14 @@ RDM_DESC = {
     'rname': lambda r: 's%d' % (9 - int(r)),  # strings, sorted order != id order
     'rflt': lambda r: 0.5 + int(r),
     'ralt': lambda r: 'u%d' % (int(r) % 2),   # duplicates whose members are NOT adjacent: u0,u1,u0,u1
+    'rbig': lambda r: 100000 + int(r),       # six-digit ids: distinct values closer than 1e-5 relative
 }
 PAT_DESC = {
     'cid': lambda c: int(c),
     'name': lambda c: 'c%s' % 'hdbfaecgij'[int(c)],   # unique strings, alphabetical != id order
     'cat': lambda c: int(c) % 2,            # duplicates, interleaved: 0,1,0,1
     'pgrp': lambda c: 'g%d' % (int(c) // 2),  # duplicates as strings: g0,g0,g1,g1
+    'big': lambda c: 100000 + int(c),        # six-digit ids: distinct values closer than 1e-5 relative
 }
 
 
